@@ -109,6 +109,46 @@ def detect(args):
     return 0
 
 
+def detect_wt(args):
+    """Like detect, but the patch is applied to a scratch worktree of /repo's HEAD and the check is pointed at it with
+    GV_REPO, so /repo is never modified and several detections can run side by side."""
+    for mid in ids(args):
+        d = os.path.join(SEEDED, mid)
+        meta = json.load(open(os.path.join(d, "meta.json")))
+        prop = meta.get("property") or mid.split("-")[0]
+        props = [prop] + [p for p in meta.get("also_check", []) if p != prop]
+        wt = "/tmp/gv-detect-%s" % mid
+        sh(["git", "-C", REPO, "worktree", "remove", "--force", wt])
+        rc, out = sh(["git", "-C", REPO, "worktree", "add", "--detach", wt, "HEAD"])
+        res = {"property": prop, "checks": {}, "mode": "scratch worktree of /repo HEAD with the patch applied, check run with GV_REPO=<worktree>"}
+        try:
+            rc, out = sh(["git", "apply", os.path.join(d, "patch.diff")], cwd=wt)
+            if rc != 0:
+                res["error"] = "patch does not apply on the current /repo HEAD: " + out[-300:]
+            else:
+                for p in props:
+                    ev = os.path.join(VERIF, "evidence", p + ".json")
+                    keep = open(ev).read() if os.path.exists(ev) else None
+                    t0 = time.time()
+                    cmd = [os.path.join(VERIF, "check"), p, "--tier", "quick"]
+                    if meta.get("only_harnesses", {}).get(p):
+                        cmd = [os.path.join(VERIF, "check"), p, "--tier", "thorough", "--only", ",".join(meta["only_harnesses"][p])]
+                    env = dict(os.environ, GV_REPO=wt)
+                    rc2, o2 = sh(cmd, cwd=VERIF, timeout=5400, env=env)
+                    viol = [l for l in o2.split("\n") if l.startswith("VIOLATION") or l.startswith("  failed check") or l.startswith("INCONCLUSIVE") or l.startswith("KNOWN-FINDING")]
+                    res["checks"][p] = {"exit": rc2, "lines": viol[:12], "s": round(time.time() - t0)}
+                    if keep is not None:
+                        open(ev, "w").write(keep)
+        finally:
+            sh(["git", "-C", REPO, "worktree", "remove", "--force", wt])
+            shutil.rmtree(wt, ignore_errors=True)
+        res["detected"] = any(c["exit"] == 1 for c in res["checks"].values())
+        res["repo_head"] = sh(["git", "-C", REPO, "rev-parse", "--short", "HEAD"])[1].strip()
+        json.dump(res, open(os.path.join(d, "detect.json"), "w"), indent=1)
+        print(mid, "DETECTED" if res["detected"] else "missed", {p: c["exit"] for p, c in res["checks"].items()}, res.get("error", ""))
+    return 0
+
+
 def table(args):
     rows = ["| seeded change | property | what it needs to manifest | demonstration re-confirmed | property's check | failed checks reported |", "|---|---|---|---|---|---|"]
     for mid in ids(args):
@@ -134,6 +174,8 @@ def table(args):
 if __name__ == "__main__":
     if len(sys.argv) >= 2 and sys.argv[1] == "table":
         sys.exit(table(sys.argv[2:]))
+    if len(sys.argv) >= 2 and sys.argv[1] == "detect-wt":
+        sys.exit(detect_wt(sys.argv[2:]))
     if len(sys.argv) < 2 or sys.argv[1] not in ("confirm", "detect"):
         print(__doc__)
         sys.exit(2)
